@@ -215,12 +215,29 @@ class TaintInterp:
         self.max_depth = max_depth
         self.call_log = []    # (callee qual, {param: value}) for every inlined package call
         self.ctor_log = []    # (class qual, kwargs) for constructed package objects
-        self.unknown = []
+        self.unknown = []           # what was not followed and may matter anywhere (keywords / positions spread from something unknown)
+        self.scoped = []            # what was not followed inside ONE object (a dictionary updated with unknown entries ..): everything
+                                    # derived from that object carries the label unk:<n> of the event
         self.steps = 0
         self.generic = 0
         self.ret_tags = {}    # callee qual -> prefix: element k of its returned tuple gets the value-provenance label 'val:<prefix>:<k>'
 
     # -------------------------------------------------------------- entry
+    def scoped_unknown(self, node, msg):
+        """record an event whose effect stays inside one object; returns the label to put on everything in that object"""
+        self.scoped.append((node, msg))
+        return f"unk:{len(self.scoped) - 1}"
+
+    def blind_for(self, *values):
+        """'' when what the interpreter did not follow cannot have changed these values; else a description of what was not followed"""
+        if self.unknown:
+            return self.unknown[0][1] + (f" (and {len(self.unknown) - 1} more)" if len(self.unknown) > 1 else "")
+        for v in values:
+            for l in labels(v):
+                if l.startswith("unk:"):
+                    return self.scoped[int(l[4:])][1]
+        return ""
+
     def call_function(self, fi, args=(), kw=None, bound=None):
         return self._call(TFn(fi, bound), list(args), dict(kw or {}), None, Frame(fi.mod, {}, "<entry>"))
 
@@ -265,9 +282,10 @@ class TaintInterp:
             if isinstance(base, TDct) and isinstance(idx, TC):
                 base.d[idx.v] = v
             elif isinstance(base, TDct):
-                self.unknown.append((t, f"store under a key that is not known: `{ast.unparse(t)[:40]}`"))
+                lab_ = self.scoped_unknown(t, f"store under a key that is not known: `{ast.unparse(t)[:40]}`")
                 for k_ in list(base.d):
-                    base.d[k_] = T(labels(base.d[k_]) | labels(v))
+                    base.d[k_] = T(labels(base.d[k_]) | labels(v) | {lab_})
+                base.d.setdefault("?", T(labels(v) | {lab_}))
                 base.open = True
             elif isinstance(base, TLst):
                 if isinstance(idx, TC) and isinstance(idx.v, int) and 0 <= idx.v < len(base.items):
@@ -615,8 +633,7 @@ class TaintInterp:
         if isinstance(e, ast.DictComp) and len(e.generators) == 1:
             return self.dictcomp(e, fr)
         if isinstance(e, ast.DictComp):
-            self.unknown.append((e, "a dictionary built by nested comprehensions"))
-            r_ = TDct({})
+            r_ = TDct({"?": T({self.scoped_unknown(e, "a dictionary built by nested comprehensions")})})
             r_.open = True
             return r_
         if isinstance(e, ast.JoinedStr):
@@ -675,14 +692,15 @@ class TaintInterp:
                     else:
                         d["?"] = join(d.get("?"), T(labels(val) | cl))
                         open_ = True
+                if open_:
+                    lab_ = self.scoped_unknown(e, "a dictionary comprehension with keys that are not known")
+                    d = {k_: T(labels(v_) | {lab_}) for k_, v_ in d.items()}
                 r_ = TDct(d)
                 r_.open = open_
-                if open_:
-                    self.unknown.append((e, "a dictionary comprehension with keys that are not known"))
                 return r_
-            self.unknown.append((e, f"a dictionary built from `{ast.unparse(g.iter)[:40]}`, whose items are not known"))
+            lab_ = self.scoped_unknown(e, f"a dictionary built from `{ast.unparse(g.iter)[:40]}`, whose items are not known")
             self.assign(g.target, T(labels(it)), fr)
-            r_ = TDct({"?": T(labels(self.ev(e.value, fr)))})
+            r_ = TDct({"?": T(labels(self.ev(e.value, fr)) | {lab_})})
             r_.open = True
             return r_
         finally:
@@ -862,8 +880,7 @@ class TaintInterp:
                         if name == "extend" and args and isinstance(args[0], (TLst, TTup)) and getattr(args[0], "extra", None) is None and o.extra is None and not self.generic:
                             o.items.extend(args[0].items)
                             return TC(None)
-                        self.unknown.append((node, f"`.{name}()` on a list whose positions matter"))
-                        allv = labels(o)
+                        allv = labels(o) | {self.scoped_unknown(node, f"`.{name}()` on a list whose positions matter")}
                         for a_ in args:
                             allv = allv | labels(a_)
                         o.extra = T(allv)
@@ -896,8 +913,7 @@ class TaintInterp:
                             return TC(None)
                     if name in ("update", "clear", "popitem", "pop", "setdefault", "__setitem__", "__delitem__"):
                         # an effect on the dictionary that is not followed: every entry may have been replaced
-                        self.unknown.append((node, f"`.{name}(...)` on a dictionary with arguments that are not known"))
-                        allv = labels(o)
+                        allv = labels(o) | {self.scoped_unknown(node, f"`.{name}(...)` on a dictionary with arguments that are not known")}
                         for a_ in list(args) + list(kw.values()):
                             allv = allv | labels(a_)
                         for k_ in list(o.d):
